@@ -112,6 +112,9 @@ func (w *dvWorld) exec(r failer, f []string) string {
 			return "bad-op"
 		}
 		w.target = reactive.NewVariable[int]()
+		if len(f) > 1 { // the deriving variable holds a value already (InheritFrom must overwrite it also with a zero value)
+			w.target.Set(atoi(f[1]))
+		}
 		w.teardown = w.target.DeriveValueFrom(w.d)
 	case "teardown":
 		if w.teardown == nil {
@@ -182,7 +185,11 @@ func genDV(rng *hx.Rng, n int) []string {
 			ops = append(ops, "dv unsub")
 		case x < 5 && !derived:
 			derived = true
-			ops = append(ops, "dv derive")
+			if rng.Bool() {
+				ops = append(ops, fmt.Sprintf("dv derive %d", dvValue(rng)))
+			} else {
+				ops = append(ops, "dv derive")
+			}
 		case x < 6 && derived:
 			ops = append(ops, "dv teardown")
 		case x < 10:
